@@ -45,6 +45,20 @@ def plan(tier, seed):
     return [sh for sh in shards if not sh["load"]] + [sh for sh in shards if sh["load"]]
 
 
+def machine_busy():
+    """more runnable work than cores (1-minute load average above the core count, or - right now - more runnable
+    tasks than 1.25 x cores): wall-clock budgets then fire for reasons that have nothing to do with the code"""
+    import os
+    n = os.cpu_count() or 1
+    try:
+        with open("/proc/loadavg") as f:
+            parts = f.read().split()
+        l1, runnable = float(parts[0]), int(parts[3].split("/")[0])
+    except Exception:
+        l1, runnable = os.getloadavg()[0], 0
+    return l1 > 1.0 * n or runnable > 1.25 * n
+
+
 def view(r):
     return {k: r.get(k) for k in COLS}
 
@@ -111,18 +125,17 @@ def run_plan(b, inj, batch, fplan, base, mcs_ids, res, tag, base_dt=None, confir
     # a timeout on a job that nobody touched and that needed < budget/5 in the fault-free run cannot be
     # spontaneous on an unloaded machine: it was induced by somebody else's fault (containment failure).
     # Confirmed by repeating the plan once; not judged in the deliberately loaded shards.
-    import os
-    if not loaded and os.getloadavg()[0] > 1.5 * (os.cpu_count() or 1):
+    if not loaded and machine_busy():
         loaded = True  # somebody else is loading the machine: spontaneous timeouts are to be expected
         res.count("plans_under_external_load")
     if base_dt is not None and not loaded:
         suspects = sorted({str(ev[1]) for ev in log if ev[0] == "search_timeout"
                            and str(ev[1]) not in affected
                            and base_dt.get((str(ev[1]), ev[2]), 1e9) < BUDGET / 5})
-        if suspects and not confirm:
+        if suspects and int(confirm) < 2:  # must show up three times in a row, on a machine that is not busy
             res.count("induced_timeout_suspects")
-            return run_plan(b, inj, batch, fplan, base, mcs_ids, res, tag, base_dt, confirm=True)
-        if suspects and confirm:
+            return run_plan(b, inj, batch, fplan, base, mcs_ids, res, tag, base_dt, confirm=int(confirm) + 1)
+        if suspects and int(confirm) >= 2:
             res.viol("timeout_induced_on_unaffected_reaction", case={"reaction": batch[int(suspects[0])]},
                      unaffected_reactions_timed_out=suspects,
                      events=[list(e) for e in log if e[0] in ("search_timeout", "fit")][:40], **w)
